@@ -313,7 +313,7 @@ func (e *SpecEnv) tr(x ast.Expr) Term {
 			et := sliceElemType(base.T)
 			comp := fx.reg.sliceComp(et)
 			i := e.tr(x.Index)
-			return Term{S: sel(sel(fx.H(e.cur, comp), "(sref "+base.S+")"), "(+ (soff "+base.S+") "+i.S+")"), Sort: fx.reg.SortOf(et), T: et}
+			return Term{S: sel(sel(fx.H(e.cur, comp), "(sref "+base.S+")"), "(sidx (soff "+base.S+") "+i.S+")"), Sort: fx.reg.SortOf(et), T: et}
 		}
 		if strings.HasPrefix(base.Sort, "(Array ") {
 			ks, vs := arraySorts(base.Sort)
